@@ -213,6 +213,7 @@ type c29Obs struct {
 	AskErrors, DeadLettered            int64
 	Frames                             int64
 	Wit                                []string
+	DeadLetterReasons                  map[string]int
 	Nontrivial                         bool
 	Inconclusive                       string
 }
@@ -313,6 +314,7 @@ func c29RunCase(e *c27Env, s c29Script, seed int64) (obs c29Obs) {
 		obs.Inconclusive = fmt.Sprintf("only %d handled + %d dead-lettered of %d accepted operations within 90s over a fault-free proxy", led.handled.Load(), dls.Total(), expected.Load())
 	}
 	obs.DeadLettered = dls.Total()
+	obs.DeadLetterReasons = dls.Reasons()
 	obs.Handled, obs.Bad, obs.Inherit, obs.WithHeaders = led.handled.Load(), led.bad.Load(), led.inherit.Load(), led.withHdrs.Load()
 	obs.Tells, obs.Asks, obs.BatchTells, obs.BatchAsks, obs.AskErrors = tells.Load(), asks.Load(), btells.Load(), basks.Load(), askErrs.Load()
 	obs.Frames = b.Proxy.ReqFwd.Load() - frames0
@@ -359,7 +361,7 @@ func TestVerif_C29(t *testing.T) {
 	defer r.Finish()
 	r.Rule("case = 2-16 concurrent callers x 20-60 operations (coalesced Tell 60%, Ask 20%, BatchTell 10%, BatchAsk 10%) to 1-3 actors on a second actor system; each operation's context names a header set (token + 0-20 extra headers with value sizes in {0,1,7,255,256,1024,4096}, 3% with one 65535-byte value) or none at all; a harness ContextPropagator injects it and stores every header it is handed on the receiver; oracle = the handler's restored headers equal the set the handled message names (a header-less message must not see anybody's headers); non-trivial = >=2 callers, some operations with headers, and coalesced tells that shared request frames; distinct by script and seed")
 	rng := r.Rand(29)
-	n := r.N(30, 600)
+	n := r.N(24, 600)
 	prop := &c29Prop{}
 	env := &c27Env{t: t, cfg: func() []remote.Option { return []remote.Option{remote.WithContextPropagator(prop)} }}
 	defer env.Close()
